@@ -309,7 +309,10 @@ def judgePair (lhs rhs : Tok) : String :=
             | some d, _ => s!"DIFF {cls} {d}"
             | _, some d => s!"DIFF {cls} {d}"
             | none, none =>
-              if modelEq mp mw != some epw then s!"DIFF {cls} Equal(P,W):model={modelEq mp mw},impl={epw}" else s!"OK {cls}"
+              if modelEq mp mw != some epw then s!"DIFF {cls} Equal(P,W):model={modelEq mp mw},impl={epw}"
+              -- the exact-arithmetic instance of the model (what the theorems talk about) on the same case
+              else if wellFormed c && !agree c st then s!"DIFF {cls} exact-model-parses-do-not-equal-expected"
+              else s!"OK {cls}"
         | _ => s!"DIFF {cls} malformed-impl-line"
       | _ => s!"DIFF {cls} malformed-impl-line"
     | _ => s!"DIFF {cls} impl-{" ".intercalate (rhs.take 3)}"
